@@ -126,6 +126,7 @@ var whitelist = []FuncSpec{
 	{Pkg: "pkg/provider", Recv: "IdentityProvider", Name: "certificateHandleFunc"},
 	{Pkg: "pkg/provider", Recv: "IdentityProvider", Name: "GetServiceProvider"},
 	{Pkg: "pkg/provider", Name: "createPostSignature"},
+	{Pkg: "pkg/provider/xml", Name: "DecodeAttributeQuery"},
 	{Pkg: "pkg/provider", Name: "hostFromForwarded"},
 	{Pkg: "pkg/provider", Name: "issuerFromForwardedOrHost", Part: "validate"},
 	{Pkg: "pkg/provider", Name: "issuerFromForwardedOrHost", Part: "derive"},
@@ -140,6 +141,7 @@ var standaloneOnly = map[string]bool{"pkg/provider/serviceprovider.ServiceProvid
 	"pkg/provider/xml.DecodeAuthNRequest": true, "pkg/provider/xml.DecodeLogoutRequest": true,
 	"pkg/provider.IdentityProviderConfig.getMetadata": true, "pkg/provider.IdentityProvider.GetEntityID": true, "pkg/provider.IdentityProvider.GetMetadata": true,
 	"pkg/provider.createRedirectSignature": true, "pkg/provider.IdentityProvider.GetServiceProvider": true, "pkg/provider.createPostSignature": true,
+	"pkg/provider/xml.DecodeAttributeQuery": true,
 	"pkg/provider/serviceprovider.getSigningCertsFromMetadata": true, "pkg/provider/serviceprovider.NewServiceProvider": true}
 
 // extraFields are struct fields the hand-written handler models read although no translated function does.
@@ -470,6 +472,12 @@ func (w *world) prepare(f *fn) {
 	_ = info
 }
 
+// isByteHolder: library objects that are, for the model, the bytes they hold (a buffer written to, a decoder's input)
+func isByteHolder(t types.Type) bool {
+	s := t.String()
+	return s == "*bytes.Buffer" || s == "*encoding/xml.Decoder"
+}
+
 func isIgnoredType(t types.Type) bool {
 	s := t.String()
 	return s == "context.Context" || s == "net/http.ResponseWriter" || s == "*net/http.Request"
@@ -490,7 +498,7 @@ func (w *world) leanType(t types.Type) string {
 			return "Int"
 		}
 	case *types.Pointer:
-		if tt.String() == "*bytes.Buffer" {
+		if isByteHolder(tt) {
 			return "Lib.Bytes" // a local buffer is the bytes written to it so far
 		}
 		return "(Option " + w.leanType(tt.Elem()) + ")"
@@ -1725,6 +1733,19 @@ func (c *tctx) writeBackCall(e ast.Expr) (v val, nres int, wb []string, ok bool)
 				return val{e: fmt.Sprintf("(let r_ := %s %s; (r_.1, some r_.2))", o, data.e), g: data.g}, 1, []string{target}, true
 			}
 		}
+		// decoder.Decode(&v) with a local decoder and a local struct v: as xml.Unmarshal over the decoder's input
+		if rid, isId := sel.X.(*ast.Ident); isId && sel.Sel.Name == "Decode" && len(x.Args) == 1 && c.info.TypeOf(rid) != nil && c.info.TypeOf(rid).String() == "*encoding/xml.Decoder" {
+			if u, isAddr := x.Args[0].(*ast.UnaryExpr); isAddr && u.Op.String() == "&" {
+				tt := c.info.TypeOf(u.X)
+				ns := namedStruct(tt)
+				if ns == nil || isPointer(tt) {
+					panic("Decode into something other than the address of a struct variable")
+				}
+				lt := c.w.leanType(tt)
+				o := c.oracle("f_Unmarshal_"+ns.Obj().Name(), "Lib.Bytes → Err × "+lt, "encoding/xml.Unmarshal(data, *"+ns.Obj().Name()+"): the error and the filled value (the pointer itself cannot be changed by the decoder)")
+				return val{e: fmt.Sprintf("(let r_ := %s s.%s; (r_.1, r_.2))", o, c.locals[c.info.Uses[rid]])}, 1, []string{localOf(u.X)}, true
+			}
+		}
 		if idx, has := outParamMethods[sel.Sel.Name]; has {
 			if s := c.info.Selections[sel]; s != nil && s.Kind() == types.MethodVal {
 				sig := s.Obj().Type().(*types.Signature)
@@ -2163,7 +2184,7 @@ func (c *tctx) nilOf(t types.Type) string {
 	}
 	switch t.Underlying().(type) {
 	case *types.Pointer:
-		if t.String() == "*bytes.Buffer" {
+		if isByteHolder(t) {
 			return "[]"
 		}
 		return "none"
@@ -2956,7 +2977,13 @@ func (c *tctx) libCall(pkg, name string, x *ast.CallExpr) val {
 	case "compress/flate.NewReader":
 		o := c.oracle("inflate", "Lib.Bytes → Lib.Stream", "flate.NewReader over the given bytes: the stream of inflated bytes (or an error after some prefix)")
 		return val{e: fmt.Sprintf("(%s %s)", o, es[0]), g: g}
-	case "bytes.NewBuffer", "bytes.NewReader":
+	case "bytes.NewBuffer", "bytes.NewReader", "strings.NewReader":
+		return val{e: es[0], g: g}
+	case "encoding/xml.NewDecoder":
+		// the decoder is its input
+		if t := c.info.TypeOf(x.Args[0]); t != nil && t.String() == "*strings.Reader" {
+			return val{e: "(Lib.stringToBytes " + es[0] + ")", g: g}
+		}
 		return val{e: es[0], g: g}
 	}
 	// base64.StdEncoding.X is a method call on a package variable; handled in methodCall
@@ -3108,7 +3135,7 @@ func (w *world) structOrder() []*structInfo {
 func (w *world) structDeps(t types.Type) []string {
 	switch tt := t.(type) {
 	case *types.Pointer:
-		if tt.String() == "*bytes.Buffer" {
+		if isByteHolder(tt) {
 			return nil
 		}
 		return w.structDeps(tt.Elem())
